@@ -213,7 +213,7 @@ def tail_rule(repo, chk, fn, cfg, loop, buf, acc, tail, E, args):
 
     def is_acc(n):
         s = n.ast
-        return n.kind == 'stmt' and ((isinstance(s, ast.AugAssign) and isinstance(s.target, ast.Name) and s.target.id == acc and ast.unparse(s.value) == f'{summary}.triplet_scores')
+        return n.kind == 'stmt' and ((isinstance(s, ast.AugAssign) and isinstance(s.op, ast.Add) and isinstance(s.target, ast.Name) and s.target.id == acc and ast.unparse(s.value) == f'{summary}.triplet_scores')
                                      or (isinstance(s, ast.Expr) and ast.unparse(s.value) == f'{acc}.extend({summary}.triplet_scores)'))
 
     def is_ckpt(n):
@@ -245,6 +245,19 @@ def aggregator(repo, chk, fn, acc):
     ok = len(cs) == 1 and ast.unparse(cs[0].args[0]) == cp and bool(calls(ck, attr='to_csv'))
     tocsv = calls(ck, attr='to_csv')
     fname_ok = bool(tocsv) and isinstance(tocsv[0].args[0], ast.Constant) and tocsv[0].args[0].value == 'ranking_checkpoint_tmp.tsv' if tocsv and tocsv[0].args else False
+    par_ck = parents(ck.node)
+    guards = []
+    cur = par_ck.get(tocsv[0]) if tocsv else None
+    while cur is not None and cur is not ck.node:
+        if isinstance(cur, ast.If):
+            guards.append(cur)
+        cur = par_ck.get(cur)
+    gname = None
+    for n in own_nodes(ck.node):
+        if isinstance(n, ast.Assign) and isinstance(n.targets[0], ast.Name) and cs and n.value is cs[0]:
+            gname = n.targets[0].id
+    ok_guard = all(term_of(ck, g.test, inline=False) == expected_term(m, f'{gname} is not None') and tocsv[0] in [x for s2 in g.body for x in ast.walk(s2)] for g in guards) and len(guards) <= 1
+    chk.expect(ok_guard, 'C08.6e', 'R14', ck.site(guards[0]) if guards else ck.site(), ' and '.join(ast.unparse(g.test) for g in guards) or '(unguarded)', 'the checkpoint is written whenever there is an aggregation', 'the checkpoint write must only be skipped when there is nothing to aggregate (`gdf is not None`)')
     chk.expect(ok and fname_ok, 'C08.6c', 'R6', ck.site(), 'get_grouped_df(importances_batch).to_csv("ranking_checkpoint_tmp.tsv")', 'the checkpoint holds the same aggregation, of the batches so far', 'the checkpoint must write get_grouped_df(<all triplets so far>) to ranking_checkpoint_tmp.tsv')
     # the aggregation itself
     gp = g.params[0]
